@@ -2,6 +2,7 @@ SPECIFICATION Spec
 CONSTANTS
   Configs <- ConfigsQuick
   Budget = 2
+  Window <- WindowAll
   Bug = "none"
 INVARIANT TableAtDone
 INVARIANT TableStaysOK
